@@ -61,6 +61,43 @@ pub struct Life {
     pub first_if: u32,
     /// Every (time, ttl) reception inside this period.
     pub receptions: Vec<(u64, u32)>,
+    /// Every change of the expiry: (time of the change, expiry from then on).
+    pub history: Vec<(u64, u64)>,
+}
+
+impl Life {
+    /// The expiry the record carries at time `t`: set by the latest reception at or before
+    /// `t` (a fresh copy restarts the life from its own TTL), never beyond the end of the life.
+    pub fn expiry_at(&self, t: u64) -> u64 {
+        self.history
+            .iter()
+            .filter(|(at, _)| *at <= t)
+            .next_back()
+            .map(|(_, e)| *e)
+            .unwrap_or(self.until)
+    }
+
+    /// Held at `t` and not within `margin` ms of either end (ends judged by the copy held at `t`).
+    pub fn surely_live_at(&self, t: u64, margin: u64) -> bool {
+        // what happened at the very instant `t` may have happened before or after the
+        // observation: the record must be live under both readings
+        let before = self
+            .history
+            .iter()
+            .filter(|(at, _)| *at < t)
+            .next_back()
+            .map(|(_, e)| *e)
+            .unwrap_or(0);
+        // … and under every intermediate state of that instant
+        let during = self
+            .history
+            .iter()
+            .filter(|(at, _)| *at == t)
+            .map(|(_, e)| *e)
+            .min()
+            .unwrap_or(u64::MAX);
+        self.from + margin <= t && t + margin < self.expiry_at(t).min(before).min(during)
+    }
 }
 
 #[derive(Clone, Copy, Debug, PartialEq, Eq)]
@@ -77,10 +114,12 @@ pub struct Hist {
     pub lives: HashMap<RecId, Vec<Life>>,
 }
 
-/// A purge the scenario knows about (stop_browse, interface removal): records
-/// matching `filter` are forgotten at `t`.
+/// A cut the API history implies: records matching `filter` that are held at `t` end no
+/// later than `until` (stop_browse / interface removal: `until == t`; verify with timeout τ:
+/// `until == t + τ`). A later reception restarts the record as usual.
 pub struct Purge<'a> {
     pub t: u64,
+    pub until: u64,
     pub filter: Box<dyn Fn(&RecId, &Life) -> bool + 'a>,
 }
 
@@ -155,6 +194,7 @@ impl Hist {
                         if l.until > t && t > l.created + 1000 && l.until > t + 1000 {
                             l.until = t + 1000;
                             l.end = End::Flushed;
+                            l.history.push((t, l.until));
                         }
                     }
                 }
@@ -169,6 +209,7 @@ impl Hist {
                     l.until = t + 1000 * ttl;
                     l.end = if d.rec.ttl == 0 { End::Goodbye } else { End::Ttl };
                     l.receptions.push((t, d.rec.ttl));
+                    l.history.push((t, l.until));
                 }
                 _ => entry.push(Life {
                     from: t,
@@ -178,6 +219,7 @@ impl Hist {
                     end: if d.rec.ttl == 0 { End::Goodbye } else { End::Ttl },
                     first_if: d.if_index,
                     receptions: vec![(t, d.rec.ttl)],
+                    history: vec![(t, t + 1000 * ttl)],
                 }),
             }
         }
@@ -227,9 +269,10 @@ impl Hist {
 fn apply_purge(lives: &mut HashMap<RecId, Vec<Life>>, p: &Purge) {
     for (id, ls) in lives.iter_mut() {
         if let Some(l) = ls.last_mut() {
-            if l.until > p.t && l.from <= p.t && (p.filter)(id, l) {
-                l.until = p.t;
+            if l.until > p.until && l.from <= p.t && l.until > p.t && (p.filter)(id, l) {
+                l.until = p.until;
                 l.end = End::Purged;
+                l.history.push((p.t, l.until));
             }
         }
     }
